@@ -136,6 +136,7 @@ def renderStr (v : Val) : String := " ".intercalate (render v)
 structure St where
   cfg : Cfg := {}
   cur : Option Pay := none
+  held : AList String Pay := []      -- events queued by `post`
 
 def cfgOf (args : List String) : Cfg :=
   { tn := parseList ((kv args "tn").getD "-"), pn := parseList ((kv args "pn").getD "-"),
@@ -241,7 +242,7 @@ def stepEv (s : St) (path : String) (fs0 : List (String × Val)) (exts : List (L
     St × Option String :=
   let fs := if path == "jb" || path == "js" then fs0.map (fun kv => (kv.1, mapF64 (jnumOf exts) kv.2)) else fs0
   match path with
-  | "mp" | "jb" =>
+  | "mp" | "jb" | "pr" =>
     let r := ingestBatchF fixedNow s.cfg fs
     ({ s with cur := keptOf r }, some (evObs (outcomeStr (outcomeOf r)) r))
   | "om" =>
@@ -275,6 +276,18 @@ def step (s : St) (op : List String) (exts : List (List String)) : St × Option 
     | some n => match parseFields n toks [] with
       | none => (s, some "bad-op")
       | some fs => stepEv s path fs exts
+  | "post" :: id :: path :: n :: toks =>
+    match n.toNat? with
+    | none => (s, some "bad-op")
+    | some n => match parseFields n toks [] with
+      | none => (s, some "bad-op")
+      | some fs =>
+        let (s', o) := stepEv s path fs exts
+        ({ s' with held := qstep s'.held (.post id s'.cur) }, o)
+  | ["outq", id] =>
+    match AList.get s.held id with
+    | none => (s, some "nopayload")
+    | some p => (s, some (renderStr (.map (marshalF fixedNow p))))
   | "memo" :: ks =>
     match s.cur with
     | none => (s, some "nopayload")
@@ -321,6 +334,8 @@ structure MSt where
   path : String := ""
   fs : List (String × Val) := []        -- fields of the last `ev`
   sets : List (String × Val) := []      -- keys Refinery itself `Set` since, latest first
+  posted : Option String := none        -- id of the `post` whose `out` comes next
+  before : List (String × String) := [] -- id ↦ the re-encoding observed right after the `post`
 
 def nonEmptyStrAt (fs : List (String × Val)) (k : String) : Option String :=
   fs.findSome? fun kv => if kv.1 == k then (match kv.2 with
@@ -452,13 +467,32 @@ def c20Check (m : MSt) (obs : String) : List Fail :=
           mk "C20:set-value-altered" s!"Refinery set {encTok e.1} to {renderStr s.2}, re-encoded as {cmpStr e.2}"
     dups ++ lostOrAltered ++ added
 
-def mon (m : MSt) (op : List String) (_ : List (List String)) (obs : Option String) : MSt × List Fail :=
+/-- C20 across requests: the re-encoding of a queued event after later requests must be what it was
+right after its own request (implementation observations only). -/
+def c20Later (id before after : String) : List Fail :=
+  if before == after then [] else
+  let what := s!"queued event {id}: re-encoded as {before} right after its request, as {after} after later requests"
+  match outEntries before, outEntries after with
+  | some b, some a =>
+    if b.any (fun e => !(a.map (·.1)).contains e.1) then
+      [{ prop := "C20", sig := "C20:field-lost:after-later-request", what := what }]
+    else [{ prop := "C20", sig := "C20:value-altered:after-later-request", what := what }]
+  | _, _ => [{ prop := "C20", sig := "C20:undecodable:after-later-request", what := what }]
+
+partial def mon (m : MSt) (op : List String) (exts : List (List String)) (obs : Option String) : MSt × List Fail :=
   match op with
+  | "post" :: id :: rest =>
+    let (m', fs) := mon m ("ev" :: rest) exts obs
+    ({ m' with posted := some id, before := m'.before.filter (fun e => e.1 != id) }, fs)
+  | ["outq", id] =>
+    match obs, m.before.find? (fun e => e.1 == id) with
+    | some o, some b => (m, c20Later id b.2 o)
+    | _, _ => (m, [])
   | "ev" :: path :: n :: toks =>
     match n.toNat?.bind fun n => parseFields n toks [] with
     | none => (m, [])
     | some fs =>
-      let m' := { m with path := path, fs := fs, sets := [] }
+      let m' := { m with path := path, fs := fs, sets := [], posted := none }
       let o := (obs.getD "").splitOn " " |>.findSome? fun t => if t.startsWith "o=" then some (t.drop 2).toString else none
       match o with
       | none => (m', [])
@@ -471,7 +505,11 @@ def mon (m : MSt) (op : List String) (_ : List (List String)) (obs : Option Stri
     | _, _ => (m, [])
   | ["out"] =>
     match obs with
-    | some o => (m, c20Check m o)
+    | some o =>
+      let m' := match m.posted with
+        | some id => if o == "nopayload" then m else { m with before := (id, o) :: m.before }
+        | none => m
+      (m', c20Check m o)
     | none => (m, [])
   | _ => (m, [])
 
